@@ -219,4 +219,8 @@ theorem C16_startup_window : ¬ FullStatement 1 := by
 /-- the harness's bound on the shutdown wall time (3 s; hung = not joined after 4 s) is inside the supervisor's stop timeout -/
 theorem C16_bound_inside_stop_timeout : 4 < supervisorStopTimeoutSec := by decide
 
+/-- the hydraulic units the teardown resets are ALL the configured ones: the constructor of the current source builds a
+driver for every configured entry with a known pair (an unknown entry is skipped, it does not end the list) -/
+theorem C16_every_configured_unit_is_built : Consts.authorityBuildsEveryKnownEntry = true := by decide
+
 end Glonax.Thm.C16
